@@ -58,6 +58,13 @@ Admissible(e) ==                                        \* C06
           /\ (e.vw > setup.fastest + 2000 /\ setup.fastest < setup.vJ - 2000) =>
                 (e.Tm >= setup.TMaxLow - EPST \/ e.Tp >= setup.TMaxHigh - EPST)
 
+\* advertised slowest detonation (the root of T- = TMaxLowT plus the documented 0.01; vJ if the range is never reached,
+\* 1 if it is exceeded up to vw = 1): from there on T- is inside the low-T range, and it is not more conservative than that
+SlowestSound(e) ==
+    ("slowest" \in DOMAIN setup /\ e.vw > setup.vJ + 2000) =>
+          /\ e.vw >= setup.slowest => e.Tm <= setup.TMaxLow + EPST
+          /\ (e.vw < setup.slowest - 102000 /\ setup.slowest < ONE) => e.Tm >= setup.TMaxLow - EPST
+
 Agrees(e) ==                                            \* C15 (template equations of state only)
     setup.isTemplate =>
        /\ e.tOut = "ok"
@@ -85,7 +92,7 @@ TMatch ==
     /\ Ev.fallback => Ev.vw < setup.vMin + 100000
     /\ PROP = "C02" => Conserved(Ev)
     /\ PROP = "C03" => ReachesTn(Ev)
-    /\ PROP = "C06" => Admissible(Ev)
+    /\ PROP = "C06" => (Admissible(Ev) /\ SlowestSound(Ev))
     /\ PROP = "C15" => Agrees(Ev)
     /\ seen' = Append(seen, [vw |-> Ev.vw, E |-> -Ev.sS, dS |-> Ev.dS, inWindow |-> Ev.vw <= setup.vJ])
     /\ UNCHANGED <<vars, setup>>
@@ -96,6 +103,7 @@ TLte ==
     /\ IsEvent("LTE")
     /\ Ev.out = "ok"
     /\ PROP = "C05" =>
+         /\ Ev.mgrSame                                          \* WallGoManager.wallSpeedLTE returns the same value (sentinels included)
          /\ Ev.ret = "root" =>
               /\ Ev.dSroot >= 5 /\ Ev.rootMatchOK               \* entropy flux conserved at the returned velocity
               /\ setup.vMin <= Ev.v /\ Ev.v <= setup.vJ
@@ -104,6 +112,7 @@ TLte ==
          /\ Ev.ret = "one" => \A i \in 1..Len(Window) : Window[i].E = -1     \* one sign over the whole window
          /\ Ev.ret = "zero" => (Len(Window) > 0 => Window[1].E = 1)          \* stopping sign already at the bottom
     /\ PROP = "C15" => (setup.isTemplate =>
+         /\ Ev.tout = "ok"
          /\ Ev.tret = Ev.ret
          /\ Ev.ret = "root" => Near(Ev.v, Ev.tv, 1000))
     /\ UNCHANGED <<vars, setup, seen>>
